@@ -1075,6 +1075,19 @@ static void run_line(char *line)
 		op_end_r(rbuf, NULL);
 		free(p);
 		free(v);
+	} else if (!strcmp(w[0], "SOA") && n == 3) {
+		/* set a string option from the very string it holds: the argument aliases what the call releases */
+		char *p = unhex(w[2], NULL);
+		cfg_opt_t *o;
+		cfg_value_t *r;
+
+		NEEDCTX(1);
+		op_begin();
+		o = cfg_getopt(CTX(1), p);
+		r = cfg_setopt(CTX(1), o, (o && o->type == CFGT_STR) ? cfg_opt_getnstr(o, 0) : NULL);
+		snprintf(rbuf, sizeof rbuf, "R %d\n", r ? 0 : -1);
+		op_end_r(rbuf, NULL);
+		free(p);
 	} else if (!strcmp(w[0], "SC") && n == 4) {
 		char *p = unhex(w[2], NULL), *v = unhex(w[3], NULL);
 		int rc;
